@@ -92,8 +92,11 @@ describe('C18', 'other',
          'nothing material')
 
 
+EVIDENCE_DIR = os.path.join(VERIF, 'evidence')
+
+
 def evidence_path(pid):
-    return os.path.join(VERIF, 'evidence', pid + '.json')
+    return os.path.join(EVIDENCE_DIR, pid + '.json')
 
 
 def in_scope(pid, tag):
@@ -105,7 +108,11 @@ def in_scope(pid, tag):
 
 def run_property(pid, tier, seed, repo=None):
     t0 = time.time()
-    os.makedirs(os.path.join(VERIF, 'evidence', 'replay'), exist_ok=True)
+    global EVIDENCE_DIR
+    if repo is not None and repo != '/repo':
+        # scratch copies (self-tests against seeded changes) never touch the committed evidence
+        EVIDENCE_DIR = os.path.join(VERIF, '.cache', 'evidence-scratch')
+    os.makedirs(os.path.join(EVIDENCE_DIR, 'replay'), exist_ok=True)
     ctx = engine.Ctx(repo, tier)
     desc = PROPS.get(pid)
     if desc is None:
@@ -165,7 +172,7 @@ def run_property(pid, tier, seed, repo=None):
         else:
             new.append(v)
     for n, v in enumerate(new):
-        rp = os.path.join(VERIF, 'evidence', 'replay', '%s-%d.json' % (pid, n))
+        rp = os.path.join(EVIDENCE_DIR, 'replay', '%s-%d.json' % (pid, n))
         with open(rp, 'w') as f:
             json.dump({'property': pid, 'tier': tier, **v.to_json()}, f, indent=1)
         print('%s: [%s] %s' % (v.where, v.rule, v.msg))
